@@ -764,7 +764,7 @@ def _role_content_length(ctx: Context, m: _Parser):
     return next(iter(found)) if len(found) == 1 else None
 
 
-def _stored_take(m: _Parser, p: dict, s_nid: int):
+def _stored_take(m: _Parser, p: dict, s_nid: int, zero=()):
     """Append nodes `self.X += <the slice taken at p>` and a witness path p -> cut that avoids them."""
     cfg = m.cfg
     ln = p["node"].id
@@ -778,7 +778,12 @@ def _stored_take(m: _Parser, p: dict, s_nid: int):
         return aps, None
     if not aps:
         return aps, [(ln, None, None)]
-    return aps, _path_from(cfg, ln, {s_nid}, avoid_nodes=set(aps))
+    # the bytes taken are held in a temporary: they must reach the body before that temporary is gone - the end of the
+    # iteration or of the function - whether the buffer is cut before or after the append.  A way out on which the count
+    # is known to be 0 took nothing.
+    head, _la = m.loop_of(ln)
+    ends = {cfg.exit.id} | ({head} if head is not None else set())
+    return aps, _path_from(cfg, ln, ends, avoid_nodes=set(aps), avoid_edges=zero)
 
 
 def _zero_edges(ctx: Context, m: _Parser, N) -> list:
@@ -918,7 +923,7 @@ def _t2(ctx: Context, m: _Parser) -> None:
             continue
         good = _check_take(ctx, m, R, s, N, "chunk data")
         for p in good:
-            aps, wit = _stored_take(m, p, s["nid"])
+            aps, wit = _stored_take(m, p, s["nid"], zero)
             body_attrs |= set(aps.values())
             ck.check(
                 R,
@@ -939,6 +944,8 @@ def _t2(ctx: Context, m: _Parser) -> None:
         for N in sorted({m.stores[k]["base"] for k in keyed}, key=repr):
             for e in _zero_edges(ctx, m, N):
                 wit = None if e[1] in keyed else cfg.find_path(e[1], ends, avoid_nodes=keyed)
+                if wit is not None and cfg.find_path(sp["nid"], e[0], avoid_nodes=keyed | {head}) is None and e[0] != sp["nid"]:
+                    wit = None  # the cut already happened in this iteration, before the test for the final chunk
                 ck.check(
                     R,
                     wit is None,
@@ -995,7 +1002,7 @@ def _t2(ctx: Context, m: _Parser) -> None:
         )
     m.body_attrs = body_attrs
     m.cl_attr = cl_attr
-    ck.require_min(R, "take-n sites", len(m.takes), 3)
+    ck.require_min(R, "take-n sites", len(m.takes), 2)
 
 
 # ---------------------------------------------------------------------- T3
@@ -1520,6 +1527,15 @@ def _k1(ctx: Context, m: _Parser) -> None:
             sp = s["split"]
             for nid, (attr, v) in m.persist.items():
                 if v == ("const", True) and nid in cfg.reachable_from(sp["nid"]) and _between(cfg, sp["nid"], s["nid"], [nid]):
+                    empties.add(attr)
+    # the same role when one cut serves every chunk: the flag set to True only on the outcome `chunk size == 0`
+    for sp in chunk_splits:
+        for N in sorted({m.stores[k]["base"] for k in m.keyed.get(sp["nid"], [])}, key=repr):
+            zero = _zero_edges(ctx, m, N)
+            if not zero:
+                continue
+            for nid, (attr, v) in m.persist.items():
+                if v == ("const", True) and nid in cfg.reachable_from(sp["nid"]) and _path_from(cfg, sp["nid"], {nid}, avoid_edges=zero) is None:
                     empties.add(attr)
     # initial values
     init = {}
